@@ -87,8 +87,30 @@ def _reset_process_globals():
 
 
 #: functions whose lines touch shared state without a lock around the whole step: pre-empted more often
-#: SDK functions whose entry is reported to Sim.sdk_probe (name -> argument of interest); only under line tracing
-PROBE_FUNCTIONS = {"raise_if_orphaned": "operation_id", "_mark_orphans": "context_id"}
+def _probe_enqueue(loc):
+    q = loc.get("queued_op")
+    upd = getattr(q, "operation_update", None)
+    return {"op": getattr(upd, "operation_id", None), "sync": getattr(q, "completion_event", None) is not None}
+
+
+#: SDK functions whose entry (and, for RETURN_PROBES, exit) is reported to Sim.sdk_probe: (file suffix, function) -> extractor
+#: of the argument of interest from the frame's locals. Observation only, and only under line tracing.
+PROBE_FUNCTIONS = {
+    ("state.py", "raise_if_orphaned"): lambda loc: loc.get("operation_id"),
+    ("state.py", "_mark_orphans"): lambda loc: loc.get("context_id"),
+    ("state.py", "_enqueue"): _probe_enqueue,
+    ("threading.py", "set"): lambda loc: loc.get("error") is not None,
+}
+RETURN_PROBES = {("state.py", "_enqueue"), ("threading.py", "set")}
+_PROBE_NAMES = {k[1] for k in PROBE_FUNCTIONS}
+
+
+def _probe_key(code):
+    if code.co_name not in _PROBE_NAMES:
+        return None
+    f = code.co_filename
+    k = (f[f.rfind("/") + 1:], code.co_name)
+    return k if k in PROBE_FUNCTIONS else None
 
 #: set by selftest/coverage.py: (file, line) of every SDK line executed under the line tracer (reach measurement only)
 COVER = None
@@ -125,6 +147,7 @@ class Sim:
         self.policy = policy or DefaultPolicy()
         self.trace_lines = trace_lines
         self.sdk_probe = None
+        self._probe_raised = set()
         self.sdk_src = sdk_src
         self.quiet_limit = quiet_limit
         self.step_budget = step_budget
@@ -399,14 +422,26 @@ class Sim:
     # -------------------------------------------------------- line pre-emption
     def _tracer(self, frame, event, arg):
         if frame.f_code.co_filename.startswith(self.sdk_src):
-            name = frame.f_code.co_name
-            if self.sdk_probe is not None and name in PROBE_FUNCTIONS and not self.killed and not self.finished:
-                # observation only: the instant at which the SDK evaluates / updates its orphan bookkeeping
-                self.sdk_probe(name, frame.f_locals.get(PROBE_FUNCTIONS[name]))
+            if self.sdk_probe is not None and not self.killed and not self.finished:
+                k = _probe_key(frame.f_code)
+                if k is not None:
+                    # observation only: the instant at which the SDK evaluates / updates its bookkeeping
+                    self.sdk_probe("sdk-call", k[1], PROBE_FUNCTIONS[k](frame.f_locals))
             return self._line_tracer
         return None
 
     def _line_tracer(self, frame, event, arg):
+        if event in ("return", "exception"):
+            if self.sdk_probe is not None and not self.killed and not self.finished:
+                k = _probe_key(frame.f_code)
+                if k in RETURN_PROBES:
+                    if event == "exception":
+                        self._probe_raised.add(id(frame))
+                    else:
+                        raised = id(frame) in self._probe_raised
+                        self._probe_raised.discard(id(frame))
+                        self.sdk_probe("sdk-ret", k[1], {"raised": raised})
+            return self._line_tracer
         if event == "line":
             self.line_events += 1
             if COVER is not None:
